@@ -40,9 +40,6 @@ theorem latch_single_worker (n : Nat) (as : List (Nat × Choice)) (s : LS) (hp :
   have := latch_workers_eq n as s hp h
   split at this <;> omega
 
-theorem mem_of_countP_pos {p : Loc → Bool} {l : List Loc} (h : l.countP p > 0) : ∃ a ∈ l, p a = true :=
-  List.countP_pos_iff.mp h
-
 /-- **No lost wake-up (safety form).** `pending` = some `maybeBegin` has completed and no loop iteration has
     started its work since (a `hardFinish` discards it: documented contract, the strand is moot or the caller
     re-triggers). Then a worker is at the top of an iteration, or the state is `continue` and the worker is inside
